@@ -44,7 +44,8 @@ Section C15.
     body_step It it_pdata step_norm c s s' nx l acc false d -> cur It s' = cur It s.
   Proof. exact (rejected_keeps_point It it_pdata step_norm). Qed.
 
-  (* 4. a failed trial (StepSolverError / EvalError) returns twice its lambda, which is strictly larger *)
+  (* 4. a failed trial (StepSolverError / EvalError) returns twice its lambda, which is strictly larger (a trial
+        abandoned at a deadline test returns its lambda unchanged: the solve ends at the next test, C08) *)
   Theorem C15_failed_trial : forall c (orc : oracle It) clk s s' n,
     orc (itn It s) (cur It s) (rho It s) (1 / lamb It s) (disp_of It c clk s) = Fail It n ->
     body c orc clk s = inl s' ->
@@ -52,8 +53,12 @@ Section C15.
     /\ rho It s' = rho It s /\ pst It s' = pst It s
     /\ itn It s' = S (itn It s)
     /\ announced It s' = announced It s ++ [(cur It s, cur It s, false)]
-    /\ lamb It s' = 2 * (1 / (1 / lamb It s)).
+    /\ (lamb It s' = 2 * (1 / (1 / lamb It s)) \/ lamb It s' = 1 / (1 / lamb It s)).
   Proof. exact (failed_trial It it_pdata step_norm). Qed.
+  Theorem C15_failed_trial_doubles : forall c (orc : oracle It) clk s s',
+    orc (itn It s) (cur It s) (rho It s) (1 / lamb It s) (disp_of It c clk s) = Fail It 0 ->
+    body c orc clk s = inl s' -> lamb It s' = 2 * (1 / (1 / lamb It s)).
+  Proof. exact (failed_trial_doubles It it_pdata step_norm). Qed.
 
   Theorem C15_doubling_is_strict : forall l, 0 < l -> 2 * (1 / (1 / l)) == 2 * l /\ l < 2 * (1 / (1 / l)).
   Proof. exact two_lambda. Qed.
@@ -71,6 +76,7 @@ Print Assumptions C15_lambda_chain.
 Print Assumptions C15_abort_at_lambda_max.
 Print Assumptions C15_reject_keeps_point.
 Print Assumptions C15_failed_trial.
+Print Assumptions C15_failed_trial_doubles.
 Print Assumptions C15_doubling_is_strict.
 
 (* ---------------- controller level: for every Newton stream, PI output and deadline pattern ---------------- *)
@@ -87,12 +93,18 @@ Section C15_controllers.
   Theorem C15_exact_accepts_only_converged : forall stream id l,
     ctl_step CExact stream = CAns id l true ->
     l == (1 # 2) * lamb /\ exists s, In s stream /\ ns_id s = id /\ ns_res s <= cp_newton_tol prm.
-  Proof. exact (exact_accepts_only_converged prm lamb res0 pi_out passed). Qed.
+  Proof. exact (exact_accepts_only_converged prm lamb res0 pi_out passed lamb_pos). Qed.
 
-  (* whatever a controller does not accept comes with a strictly larger lambda (lamb_inc > 1) *)
+  (* whatever a controller does not accept comes with a strictly larger lambda (lamb_inc > 1); the one exception is
+     the exact controller's trial abandoned because a deadline test inside its Newton loop found the deadline
+     passed: unchanged iterate, unchanged lambda (the solve then ends at the next termination test, C08) *)
   Theorem C15_rejected_increases_lambda : forall k stream id l,
-    1 < cp_lamb_inc prm -> ctl_step k stream = CAns id l false -> lamb < l.
+    1 < cp_lamb_inc prm -> ctl_step k stream = CAns id l false ->
+    lamb < l \/ (k = CExact /\ id = 0%nat /\ l == lamb /\ exists j, passed j = true).
   Proof. exact (rejected_increases_lambda prm lamb res0 pi_out passed lamb_pos). Qed.
+  Theorem C15_rejected_increases_lambda_no_deadline : forall k stream id l,
+    1 < cp_lamb_inc prm -> (forall j, passed j = false) -> ctl_step k stream = CAns id l false -> lamb < l.
+  Proof. exact (rejected_increases_lambda_no_deadline prm lamb res0 pi_out passed lamb_pos). Qed.
 
   Theorem C15_lambda_stays_positive : forall k stream id l a,
     0 < cp_lamb_min prm -> 0 < cp_lamb_init prm -> 0 < cp_lamb_inc prm ->
@@ -107,5 +119,6 @@ End C15_controllers.
 
 Print Assumptions C15_exact_accepts_only_converged.
 Print Assumptions C15_rejected_increases_lambda.
+Print Assumptions C15_rejected_increases_lambda_no_deadline.
 Print Assumptions C15_lambda_stays_positive.
 Print Assumptions C15_never_accepts_unevaluable_point.
